@@ -17,6 +17,7 @@ RULE = ('valid multi-line programs (random derivations of the grammar, 1-6 state
         'parser raised from the parser (not the lexer) and the message was checked against the token M7 saw last; distinct = '
         'distinct source text.')
 RULE += ' Strings and comments before the error contain CR/VT/FF/FS-RS/NEL/U+2028/U+2029; one case in four goes through eval, one in four is resubmitted on a caching parser (whose cache strips blank space from its keys) below two more blank lines (expected line + 2), one in seven is preceded by an arbitrary earlier call.'
+RULE += ' Erroneous texts also come from the corpus grown by a coverage-guided fuzzing run per worker (atheris; 5 s quick, 100 s thorough); failures of the reserved-word action ("for is reserved keyword") are not syntax errors and are not judged.'
 ASSUMPTIONS = ['the offending token is the last token the LALR(1) parser pulled from the lexer (M7)',
                'physical line = 1 + number of "\\n" characters before the token\'s first character',
                '"names the token" = the message contains the raw source slice of the token or str() of its normalised value',
@@ -61,6 +62,7 @@ def cases(ctx):
     if ctx.shard == 0:
         for t in DIRECTED:
             yield ('text', t)
+    yield ('cgf', rnd.getrandbits(30), ctx.scale(5, 100))          # erroneous texts from a coverage-guided corpus, one fuzzing process per worker
     nprog = ctx.scale(600, 12000)
     for _ in range(nprog):
         # base: 1-6 statements
@@ -112,8 +114,30 @@ def parses(ctx, types, seed):
         return False
 
 
+def case_deadline(case):
+    return case[2] + 400 if case[0] == 'cgf' else CASE_DEADLINE
+
+
+def run_cgf(case, ctx):
+    """erroneous texts from the corpus grown by a coverage-guided fuzzing run (texts that each reached lexer/parser code no earlier one had): every one
+    goes through this check's oracle (offending token = the last token the parser pulled, line = its physical line in the text)"""
+    from lib import cgdriver
+    _, seed, seconds = case
+    seeds = ['x = [1, 2]\nx | map(v => v * 2) )', 'f(1, {"a": b.c(d),}) if not x else y[1:2] 3', 'd["k"] += 1; del l[0] 7', 'a = 1\nb = [2,\n3]\nc d', '1 +', 'x = )', 'for x', 'a b', 'f(1,\n 2\n', 'x = 1;y = 2;z = = 3']
+    out = cgdriver.run(ctx, 'c16', seed, seconds, seeds)
+    if out is None:
+        return
+    n0 = ctx.counters['mid_text_errors'] + ctx.counters['end_of_input_errors']
+    for text in cgdriver.corpus_texts(ctx, limit=ctx.scale(250, 4000)):
+        ctx.evaluations += 1
+        run_one(('text', text), ctx, True)
+    ctx.count('syntax_errors_judged_on_texts_of_a_coverage_guided_corpus', ctx.counters['mid_text_errors'] + ctx.counters['end_of_input_errors'] - n0)
+
+
 def run_case(case, ctx):
     kind = case[0]
+    if kind == 'cgf':
+        return run_cgf(case, ctx)
     if kind == 'prog':
         if not parses(ctx, case[1], case[2]):
             ctx.count('invalid_bases_dropped(nonassoc chains etc.)')
@@ -151,7 +175,7 @@ def run_one(case, ctx, base_ok):
         except Exception as e:
             first_exc = e
         last0 = ctx.M7C.last()
-        if first_exc is not None and ctx.M7C.lex_error is None and last0 not in ('nothing-pulled', None):
+        if first_exc is not None and ctx.M7C.lex_error is None and last0 not in ('nothing-pulled', None) and 'reserved keyword' not in str(first_exc):
             # the same erroneous program two blank lines further down: same token, line + 2 - whether or not the parser lexes it again
             typ0, val0, start0, end0, _ = last0
             line0 = 1 + text.count('\n', 0, start0)
@@ -197,6 +221,10 @@ def run_one(case, ctx, base_ok):
         ctx.count('raised_before_any_token')
         return
     msg = str(exc)
+    if isinstance(exc, ParserError) and 'reserved keyword' in msg:
+        # not a syntax error: the grammar accepts the reserved word as an expression and its action refuses it (C16's category "use of a reserved word")
+        ctx.count('reserved_word_errors(not syntax errors, not judged)')
+        return
     ctx.nontriv(text)
     if last is None:
         ctx.count('end_of_input_errors')
